@@ -1,5 +1,6 @@
 import SfVerif.Lemmas.Ring2
 import SfVerif.Gen.Consts
+import SfVerif.Lemmas.GenFnsLogs
 /-! C05 — the host reads back the most recent log bytes, in order, at any moment. -/
 namespace SfVerif.Props.C05
 open SfVerif SfVerif.Gen SfVerif.Ring
@@ -55,5 +56,17 @@ theorem C05_invariant (msgs : List (List UInt8)) :
 /-- non-vacuity: a small ring, three messages, the middle one longer than the ring -/
 example : Logs.read 4 ([[1, 2, 3], [4, 5, 6, 7, 8, 9], [10]].foldl (Logs.log 4) (Logs.init 4)) = [7, 8, 9, 10] := by
   decide
+
+/-- **tie by translation**: the model's `append` and `readPtrs` are equal to the definitions
+    regenerated from the bodies of `Logs::append` / `Logs::read_ptrs` in provider/src/log.rs -/
+theorem C05_model_is_the_source_text (l : Logs) (n : Nat) (hoff : l.offset ≤ LOG_CAPACITY) :
+    (let r := log_append l.offset l.len n
+     let m := Logs.append LOG_CAPACITY l n
+     m.1.offset = r.2.1 ∧ m.1.len = r.2.2 ∧ m.1.buf = l.buf ∧
+     m.2.src = r.1.1 ∧ some m.2.dst1 = r.1.2.1 ∧ m.2.len1 = r.1.2.2.1 ∧ m.2.dst2 = r.1.2.2.2.1 ∧ m.2.len2 = r.1.2.2.2.2) ∧
+    (let r := log_read_ptrs l.offset l.len
+     let m := Logs.readPtrs LOG_CAPACITY l
+     some m.1 = r.1 ∧ m.2.1 = r.2.1 ∧ m.2.2.1 = r.2.2.1 ∧ m.2.2.2 = r.2.2.2) :=
+  ⟨gen_append_eq l n hoff, gen_read_ptrs_eq l⟩
 
 end SfVerif.Props.C05
